@@ -383,3 +383,66 @@ def api_history_and_dtype(ctx, group, dtype_clause=True, skip=()):
                               "relative_deviation_between_float32_default_and_float64_default": d, "result_dtypes_under_float32_default": bad_dtype or "same"}, True)
     finally:
         torch.set_default_dtype(old)
+
+
+# ----------------------------------------------------------------------------------------------------------------------
+# module instances are independent: build, evaluate, corrupt every buffer and parameter of the first instance in place,
+# build the same configuration again (same RNG seed) -> same function.  Catches constants shared between instances
+# through module-level caches.
+# ----------------------------------------------------------------------------------------------------------------------
+def _module_registry(group):
+    from e3nn import o3, nn
+    g = torch.Generator().manual_seed(11)
+    rn = lambda *s: torch.randn(*s, generator=g)  # noqa: E731
+    reg = []
+    if group == "C02":
+        reg += [("FullyConnectedTensorProduct(1x0e+2x1o,1x0e+1x1o,2x0e+1x1o+1x2e)", lambda: o3.FullyConnectedTensorProduct("1x0e+2x1o", "1x0e+1x1o", "2x0e+1x1o+1x2e"), (rn(3, 7), rn(3, 4))),
+                ("ElementwiseTensorProduct(2x1o+1x2e,2x1o+1x1e)", lambda: o3.ElementwiseTensorProduct("2x1o+1x2e", "2x1o+1x1e"), (rn(3, 11), rn(3, 9))),
+                ("FullTensorProduct(1o+2e,0e+1o)", lambda: o3.FullTensorProduct("1o+2e", "0e+1o"), (rn(2, 8), rn(2, 4))),
+                ("TensorSquare(1x0e+2x1o)", lambda: o3.TensorSquare("1x0e+2x1o"), (rn(2, 7),)),
+                ("TensorProduct uvu/uvw mixed", lambda: o3.TensorProduct("2x0e+1x1o", "1x0e+1x1o", "2x0e+1x1o", [
+                    (0, 0, 0, "uvu", True), (1, 0, 1, "uvu", False), (0, 1, 1, "uvw", True), (1, 1, 0, "uvw", True)]), (rn(3, 5), rn(3, 4)))]
+    if group == "C08":
+        reg += [("Linear(2x0e+1x1o -> 3x0e+2x1o, biases)", lambda: o3.Linear("2x0e+1x1o", "3x0e+2x1o", biases=True), (rn(4, 5),)),
+                ("Linear(f_in)", lambda: o3.Linear("1x1o+2x1o", "2x1o", f_in=3, f_out=2), (rn(2, 3, 9),))]
+    if group == "C09":
+        reg += [("Gate", lambda: nn.Gate("2x0e+1x0o", [torch.tanh, torch.abs], "2x0e", [torch.sigmoid], "1x1o+1x2e"), (rn(3, 3 + 2 + 8),)),
+                ("Activation", lambda: nn.Activation("2x0e+1x0o", [torch.tanh, torch.tanh]), (rn(3, 3),)),
+                ("NormActivation", lambda: nn.NormActivation("2x1o+1x2e", torch.sigmoid, bias=True), (rn(3, 11),)),
+                ("Extract", lambda: nn.Extract("1x0e+2x1o+1x2e", ["2x1o", "1x0e+1x2e"], [(1,), (0, 2)]), (rn(2, 12),))]
+    if group == "C13":
+        reg += [("BatchNorm(eval)", lambda: nn.BatchNorm("2x0e+1x1o").eval(), (rn(4, 5),)),
+                ("BatchNorm(train)", lambda: nn.BatchNorm("2x0e+1x1o"), (rn(4, 5),))]
+    if group == "C05":
+        reg += [("SphericalHarmonics([1,3],norm)", lambda: o3.SphericalHarmonics([1, 3], True, "norm"), (rn(5, 3),)),
+                ("SphericalHarmonics(0..4,integral)", lambda: o3.SphericalHarmonics([0, 1, 2, 3, 4], False, "integral"), (rn(5, 3),))]
+    if group == "C11":
+        reg += [("ToS2Grid(3,(8,9))", lambda: o3.ToS2Grid(3, (8, 9)), (rn(2, 16),)),
+                ("FromS2Grid((8,9),3)", lambda: o3.FromS2Grid((8, 9), 3), (rn(2, 8, 9),)),
+                ("ToS2Grid(2,(6,7),norm)", lambda: o3.ToS2Grid(2, (6, 7), normalization="norm"), (rn(2, 9),))]
+    if group == "C10":
+        reg += [("ReducedTensorProducts(ij=ji)", lambda: o3.ReducedTensorProducts("ij=ji", i="1o"), (rn(2, 3), rn(2, 3))),
+                ("ReducedTensorProducts(ijk=jik)", lambda: o3.ReducedTensorProducts("ijk=jik", i="1o", k="0e+1o"), (rn(3), rn(3), rn(4)))]
+    return reg
+
+
+def module_instance_independence(ctx, group):
+    for name, build, xs in _module_registry(group):
+        torch.manual_seed(1234)
+        m1 = build()
+        ref = [y.detach().clone() for y in _flat_tensors(m1(*[x.clone() for x in xs]))]
+        touched = 0
+        with torch.no_grad():
+            for tns in list(m1.parameters()) + list(m1.buffers()):
+                if tns.is_floating_point() and tns.numel():
+                    tns.mul_(-3.0).add_(1.0)
+                    touched += 1
+        torch.manual_seed(1234)
+        m2 = build()
+        got = [y.detach() for y in _flat_tensors(m2(*[x.clone() for x in xs]))]
+        ctx.case(f"instance-independence {group} {name}", nontrivial=touched > 0, sample_every=3)
+        ctx.traces += 1
+        d = max([_dev(u, v) for u, v in zip(got, ref)] + [0.0]) if len(got) == len(ref) else float("inf")
+        if d > 1e-6:
+            ctx.violation(f"{name.split('(')[0]}/instances-share-state", {"module": name, "history": ["m1 = build(); y = m1(x)", "in-place edit of every buffer and parameter of m1",
+                          "m2 = build() (same RNG seed); m2(x)"], "relative_deviation_of_m2_from_first_result": d}, True)
